@@ -108,7 +108,12 @@ def run_seq_task(mod, task):
     res["samples"] = st.samples
     res["extra"] = {"merged_transitions": st.merged, "children_spawned": server.spawned}
     for v in st.violations:
-        sig = "%s|%s|%s|%s" % (mod.PROPERTY, cfg.label, sigs.get(repr(v["history"]), "?"), v["kind"])
+        evsig = sigs.get(repr(v["history"]), "?")
+        if hasattr(mod, "signature_tag"):
+            tag = mod.signature_tag(cfg, v["history"])
+            if tag:
+                evsig = "%s:%s" % (evsig, tag)
+        sig = "%s|%s|%s|%s" % (mod.PROPERTY, cfg.label, evsig, v["kind"])
         res["violations"].append({
             "signature": sig, "detail": v["detail"],
             "replay": {"engine": "seq", "module": mod.__name__,
